@@ -1,11 +1,17 @@
 """C19 - harmonic sums, gravity and magnetic models, normal gravity.
 
 M1: MC_Harmonic enumerates (a) the packed coefficient storage, the constructor contract of SphericalEngine::coeff, the binary
-reader with and without truncation and the capability masks of GravityCircle; (b) an exact dyadic value lattice (Schmidt harmonics of
+reader with and without truncation and the capability masks of GravityCircle; (b) an exact dyadic value lattice (harmonics of
 degree <= 1 and zonal harmonics of degree <= 4 on the coordinate axes at r = a 2^j, one-, two- and three-component forms,
-truncation); (c) magnetic model assembly (piecewise linear time dependence, constant term, truncation, ENU rotation), checking
-model invariants (Euler homogeneity, parity, radial scaling, superposition, C<->S phase, continuity at knots, rate = slope).
-M2: every vector is executed on the real classes; the magnetic vectors through synthetic .wmm/.wmm.cof files.
+truncation, every constructor form: general / "full set", normalisation schmidt / full / argument left out, copy-assigned);
+(c) magnetic model files (metadata with every optional keyword present or absent and the documented defaults, decorated
+with comments and unknown keywords, piecewise linear time dependence, constant term, the lattice of Nmax / Mmax requests,
+ENU rotation); (d) gravity model files over a non-rotating spherical reference body (V, W, U, T, disturbance, geoid height,
+gravity anomaly and deflections, Nmax / Mmax lattice, HeightOffset / CorrectionMultiplier / Normalization defaults, GravityCircle
+values under every capability request) and NormalGravity of that body, checking model invariants (Euler homogeneity, parity,
+radial scaling, superposition, C<->S phase, continuity at knots, rate = slope, truncation at load = truncated file,
+anomaly of degree n = (n-1) T_n / R, defaults = explicit values).
+M2: every vector is executed on the real classes; the model vectors through synthetic .wmm/.egm (+.cof) files.
 M3: Trace_Harmonic validates the lattice observations exactly and seeded random law records: harmonic sums against the defining
 series, circle == direct, gradient == derivative, synthetic magnetic and gravity model files against the field implied by their
 coefficients, normal gravity against the closed formulas of the documentation."""
@@ -13,9 +19,11 @@ import os
 import vlib
 
 LEVEL = 'exploration'
-LEVEL_TEXT = ('Exact integer TLA+ model of coefficient storage/reader/truncation, of a dyadic value lattice of low-degree Schmidt harmonics '
-              '(one-, two-, three-component forms) and of magnetic model assembly, enumerated by TLC with invariants and replayed on the real '
-              'classes through synthetic model files; for general degree, normalisation, position and time the property is bound by laws on '
+LEVEL_TEXT = ('Exact integer TLA+ model of coefficient storage/reader/truncation, of a dyadic value lattice of low-degree harmonics '
+              '(one-, two-, three-component forms, every constructor form and normalisation), of magnetic model files (optional keywords and '
+              'their documented defaults, time dependence, Nmax/Mmax lattice) and of gravity model files over a non-rotating spherical '
+              'reference body (V, W, U, T, geoid height, anomaly, circle capabilities), enumerated by TLC with invariants and replayed on the '
+              'real classes through synthetic model files; for general degree, normalisation, position and time the property is bound by laws on '
               'seeded random inputs decided by the TLA+ trace specification: the sum and its gradient against the defining double series '
               '(long double, from the documented normalisation), circle = direct, gradient = derivative, file models (magnetic: time '
               'interpolation/extrapolation, constant term, ENU, H/F/D/I; gravity: V, W = V + Phi, T = W - U, geoid height, anomaly, circle) '
@@ -38,6 +46,16 @@ def _flat(x):
     return out
 
 
+def _meta(m):
+    """keywords present in a lattice metadata file: count, then key value pairs (sorted, so that equal files get equal rows)"""
+    if not isinstance(m, dict):
+        raise vlib.FrameworkError('metadata record expected, got %r' % (m,))
+    out = [len(m)]
+    for k in sorted(m):
+        out += [k, m[k]]
+    return out
+
+
 def to_rows(vals):
     rows = []
     for v in vals:
@@ -46,13 +64,20 @@ def to_rows(vals):
             rows.append([k] + _flat(v[1:]))
         elif k == 'val':
             h, pt, j, ja = v[1], v[2], v[3], v[4]
-            row = ['val', h['L'], ja, j, pt]
+            row = ['val', h['L'], ja, j, pt, h['ct'], h['norm'], h['wn'], int(h['asg'])]
             for l in range(h['L']):
                 row += [h['tau'][l], h['N'][l], h['nmx'][l], h['mmx'][l]] + list(h['c'][l])
             rows.append(row)
         elif k == 'mag':
             g = v[1]
-            rows.append(['mag', g['nm'], g['nc'], g['dt0'], g['tq'], g['j'], g['pt'], g['Nmax'], g['Mmax']] + _flat(g['sets']))
+            rows.append(['mag', g['tq'], g['j'], g['pt'], g['Nmax'], g['Mmax'], g['wn'], int(g['deco']), len(g['sets'])] + _flat(g['sets']) + _meta(g['meta']))
+        elif k == 'grv':
+            g = v[1]
+            rows.append(['grv'] + list(g['par']) + [g['refkey'], g['Nmax'], g['Mmax'], g['p'], g['j'], g['req'], g['wn'], int(g['deco'])]
+                        + _flat(g['gs']) + _flat(g['cs']) + _meta(g['meta']))
+        elif k == 'ngl':
+            g = v[1]
+            rows.append(['ngl', g['ja'], g['km'], int(g['via']), g['n'], g['p'], g['j']])
         else:
             raise vlib.FrameworkError('unknown vector kind %r' % (k,))
     return rows
@@ -60,8 +85,8 @@ def to_rows(vals):
 
 def run(ctx):
     base = ('INIT Init\nNEXT Next\nCONSTANTS Part = "%s" Quick = %s NChunks = 32\n'
-            'INVARIANTS IdxInv ValInv MagInv Emit\nCHECK_DEADLOCK FALSE\n')
-    parts = [(p, base % (p, 'TRUE' if ctx.quick else 'FALSE')) for p in ('idx', 'val', 'mag')]
+            'INVARIANTS IdxInv ValInv MagInv MetaInv GrvInv Emit\nCHECK_DEADLOCK FALSE\n')
+    parts = [(p, base % (p, 'TRUE' if ctx.quick else 'FALSE')) for p in ('idx', 'val', 'mag', 'grv')]
     scratch = ctx.path('models')
     os.makedirs(scratch, exist_ok=True)
     nrec = 8000 if ctx.quick else 60000
@@ -75,9 +100,13 @@ def run(ctx):
 
 RULE = ('vectors enumerated by TLC from MC_Harmonic: every (N, M) <= 6 (8) storage layout, every coeff constructor argument tuple '
         'N <= 5 with array sizes need-1/need/need+1, every reader call (N0, M0) x (N, M, truncate) in -2..6, all 34 x 2 capability '
-        'requests, Schmidt lattice harmonics (coefficient vectors over {-1,0,1}^7, 6 axis points, r = a 2^j, 1-3 components, '
-        'truncations), magnetic lattice models (1-3 epochs, constant term, DeltaEpoch 1|2, quarter-year times incl. extrapolation, '
-        '12 positions, 4 radii, truncations); plus seeded random law records (sh, magr, grvV/T/G/N, ng, ngz). '
+        'requests, lattice harmonics (coefficient vectors over {-1,0,1}^7, 6 axis points, r = a 2^j, 1-3 components, truncations, '
+        'constructor forms general/simple x normalisation schmidt/full/default x assigned, documented exceptions), magnetic lattice '
+        'files (1-3 epochs, constant term, DeltaEpoch 1|2, quarter-year times incl. extrapolation, 12 positions, 4 radii, the lattice '
+        'of (Nmax, Mmax) requests in -2..4, every subset of the optional keywords absent, corrupt set counts), gravity lattice files '
+        '(6 x 4 coefficient shapes, (Nmax, Mmax) in -2..5, 4 mass/radius tuples, 12 positions, 2-3 radii, capability requests, optional '
+        'keywords absent, Flattening | DynamicalFormFactor) and NormalGravity of the sphere (J_n for n = -2..9); plus seeded random law '
+        'records (sh, magr, grvV/T/Z/G/N/C, ng, ngz, ngs). '
         'distinct_nontrivial = distinct lattice vectors.')
 TRUSTED = ['TLC', 'Harmonic.tla', 'drv_harm.cpp (defining series in long double, documentation formulas of normal gravity, '
            'ENU frame, synthetic file writers, residual quantisation in units of eps*scale)']
